@@ -60,6 +60,18 @@ CHECKS["C13"] = dict(
          "Data.Load / NetCDF input is not driven.",
     ref="6/C13")
 
+CHECKS["C09"] = dict(
+    technique="TLA+ state machine (ClimateSM) + TLC-generated setter histories replayed on ClimateNetwork with a fresh twin + TLC trace validation (Val_C09)",
+    text="ClimateSM specifies a similarity network as a state machine (threshold, pending density request, non_local flag, set of past "
+         "observations); Gen_C09 generates constructor + setter histories over all symmetric 3-node similarity matrices with entries k/4 "
+         "(signs, ties, three diagonals) and 4-node (also directed) ones; every step is replayed on ClimateNetwork, the object and a fresh "
+         "twin are observed, and TLC replays the trace deciding LinkDef (strict >, |S|), NonLocalSubset, DensityBound (never above the "
+         "request, miss <= ties), Monotone over the whole history, Consistent (threshold/density/n_links/adjacency) and Functional "
+         "(object = twin, incl. memoised degree and three more measures) at every step.",
+    note="tanh distance weighting is only constrained relationally (non-local links are a subset of local links at equal threshold); "
+         "data-driven subclasses (Tsonis, Spearman, MutualInfo, ...) are covered under C10/C01, not here.",
+    ref="6/C09")
+
 NOT_APPLICABLE = {
     "C20": "memory safety of compiled kernels is a property of concrete addresses, not of abstract state a TLA+ "
            "specification maintains; nothing binds a PlusCal transcription of index arithmetic to the compiled code "
